@@ -21,7 +21,7 @@ ASSUMPTIONS = [
 ]
 MONITORS = "closure(dest) evaluated at every intermediate destination state via FaultyFS.after_put / audit hook, plus end-state and retry checks"
 REQUIRED_COUNTERS = [
-    "index_history_rounds", "source_vanish_rounds", "rounds", "states_observed", "rounds_with_failures", "shared_file_failure_rounds", "retries", "rounds_with_index",
+    "source_index_rounds", "index_history_rounds", "source_vanish_rounds", "rounds", "states_observed", "rounds_with_failures", "shared_file_failure_rounds", "retries", "rounds_with_index",
     "dirs_withheld", "exhaustive_scenarios", "crash_children",
 ]
 EXHAUSTIVE = {"quick": False, "thorough": False}
@@ -182,6 +182,39 @@ def run_shard(ctx):
                     res.violation("retry-incomplete/stale-index-trusted", "fault-free push through a stale index left the directory incomplete and reported no failure",
                                   case=case, detail={"A": A["listing"], "B": B["listing"]})
                 index.close()
+
+            # ---- pulling the same directories twice through one *source* index (expanded request), the destination wiped in between
+            if not ctx.out_of_time():
+                wipe(sc.dest_root)
+                sc.dest = sc._mk_dest()
+                sidx = ObjectDBIndex(os.path.join(d, "idx-src"), "src")
+                dir_ids = {t["hi"] for t in sc.trees}
+                res.evaluated()
+                res.count("source_index_rounds")
+                res.nontrivial(scen_sig, "source-index-twice")
+                for rnd in (1, 2):
+                    from dvc_data.hashfile.transfer import transfer as _tr
+
+                    viol4 = []
+
+                    def on_state4():
+                        probs, _n = closure_of(sc)
+                        viol4.extend(probs)
+
+                    with UploadFaults(sc, frozenset(), on_state4) as uf4:
+                        _tr(sc.src, sc.dest, dir_ids, jobs=jobs, shallow=False, src_index=sidx, cache_odb=sc.src)
+                    res.count("states_observed", uf4.states)
+                    endp, _n = closure_of(sc)
+                    if viol4 or endp:
+                        bad = (viol4 or endp)[0]
+                        res.violation("dir-present-without-its-files/expanded-request-through-source-index",
+                                      f"round {rnd}: directory {bad[0]} delivered without {bad[1][:2]} (expanded request, src_index knows the directory)",
+                                      case=case, detail={"round": rnd, "dest": sc.dest_kind})
+                        break
+                    if rnd == 1:
+                        wipe(sc.dest_root)
+                        sc.dest = sc._mk_dest()
+                sidx.close()
 
             # ---- source objects that vanish between the status query and their upload (last: it damages the source)
             if not ctx.out_of_time():
